@@ -1,6 +1,6 @@
 (* Props/C08.v — property C08: NaN and None are the same null, and nulls are transparent to the valid
    aggregations.  Statements only (proofs in Proofs/ViewBase.v, NullView.v, NullOrder.v, EncRolling.v,
-   EncMaps.v, CastOutput.v, EncRank.v, TransQuantile.v, TransRank.v).
+   EncMaps.v, CastOutput.v, EncRank.v, TransQuantile.v, TransRank.v, TransPartition.v).
 
    Reading guide.  A : the inner numeric type (any carrier: the theorems use no law of the numeric class, so
    they hold bit for bit at binary64 as well as at option R and Z);  T with D : IsNone T A : an element type
@@ -18,7 +18,7 @@ From Tevec Require Import Base.Prelude Base.Num Base.XR Model.Driver Model.Featu
      Model.Binary Model.Reg Model.Fdiff Model.Agg Model.NullView
      Proofs.AggGeneric Proofs.ViewBase Proofs.NullView Proofs.EncRolling.
 From Tevec Require Model.SortCmp Model.Quantile Model.Rank Model.Partition Model.MapOps Model.Cast Proofs.Cast Proofs.NullOrder
-     Proofs.EncMaps Proofs.CastOutput Proofs.EncRank Proofs.TransQuantile Proofs.TransRank.
+     Proofs.EncMaps Proofs.CastOutput Proofs.EncRank Proofs.TransQuantile Proofs.TransRank Proofs.TransPartition.
 Import ListNotations.
 
 (* ======================= (a) re-encoding the input ======================================================= *)
@@ -415,6 +415,41 @@ Proof. intros A NA NF T D HL q m xs ys H. apply TransQuantile.vquantile_insert_l
 Theorem C08_quantile_index_law_real : TransQuantile.QIdxLaw (A := XR) (NF := OrderXR.NumFloorXR).
 Proof. exact TransRank.qidx_law_xr. Qed.
 
+(* re-encoding and insertion composed, for the order statistics: a float series against an optional series with extra
+   Nones, every carrier *)
+Theorem C08_transparent_quantile_across_encodings :
+  forall {A} {NA : Num A} {NF : SortCmp.NumFloor A} {T1 T2} (D1 : IsNone T1 A) (D2 : IsNone T2 A)
+         (q : A) (m : Quantile.qmethod) (xs : list T1) (xs' ys : list T2),
+    SameView D1 D2 xs xs' -> NullInsert xs' ys ->
+    (forall r, Quantile.vquantile (DT := D1) q m xs = Ok r -> Quantile.vquantile (DT := D2) q m ys = Ok r) /\
+    (forall (sc1 : T1) (sc2 : T2) pm, same_view D1 D2 sc1 sc2 ->
+       Quantile.vpercentile_of (DT := D2) sc2 pm ys = Quantile.vpercentile_of (DT := D1) sc1 pm xs).
+Proof.
+  intros A NA NF T1 T2 D1 D2 q m xs xs' ys HS HI. split.
+  - intros r Hr. apply (TransQuantile.vquantile_insert_ok _ _ _ _ _ HI).
+    rewrite <- (NullOrder.vquantile_same_view D1 D2 q m _ _ HS). exact Hr.
+  - intros sc1 sc2 pm E. rewrite (NullOrder.vpercentile_of_insert sc2 pm _ _ HI). symmetry.
+    apply NullOrder.vpercentile_of_same_view; assumption.
+Qed.
+
+(* ---- vpartition under null insertion: every carrier ------------------------------------------------------------------ *)
+(* read through the option view, the partition (the kth + 1 first elements of the sorted series, padded with T::none())
+   is a function of the non-null elements only, so inserting nulls does not change it; T::none() must be a null (on the
+   integer types it panics, and then a short series panics where a longer one needs no padding) *)
+Theorem C08_transparent_partition :
+  forall {A} {NA : Num A} {T} {D : IsNone T A} {DX : SortCmp.IsNoneX T A} (kth : nat) (sort rev : bool) (pad : T)
+         (xs ys : list T),
+    SortCmp.tnone = Ok pad -> is_none pad = true -> NullInsert xs ys ->
+    EncRank.res_opt_view (Tevec.Model.Partition.vpartition kth sort rev ys)
+    = EncRank.res_opt_view (Tevec.Model.Partition.vpartition kth sort rev xs) /\
+    EncRank.res_opt_view (Tevec.Model.Partition.vpartition kth sort rev xs)
+    = Ok (TransPartition.part_of_valid kth sort rev pad (filter not_none xs)).
+Proof.
+  intros A NA T D DX kth sort rev pad xs ys HT HP HI.
+  split; [apply (TransPartition.vpartition_insert kth sort rev pad); assumption|
+          apply TransPartition.vpartition_by_valid; assumption].
+Qed.
+
 (* ---- the rank map under null insertion (option R, from the C12 characterisation) --------------------------------- *)
 (* the ranks of the original elements are unchanged and the inserted positions carry the null rank: the output for the
    series with nulls inserted by pattern p is the output for the original series with null ranks inserted by p *)
@@ -439,6 +474,18 @@ Proof.
   intros pct rev xs ys H. split; [apply TransRank.vrank_null_insert; exact H|].
   intros i j x Hi Hj. apply (TransRank.vrank_insert_same_slot pct rev xs ys i j x H Hi Hj).
 Qed.
+
+(* NOT PROVED — the rank map under null insertion at a generic carrier.  Without a law it is false: a series with ONE valid
+   element of length 1 takes the early return and gets the literal 1.0 (`none`), the same element in a longer series gets
+   `1 as f64 / 1 as f64` from the loop; with that one law the statement below is expected to hold (checked by vm_compute
+   on every series over {1, 2, null} and every pattern up to length 4 on the integer carrier; what is missing is a
+   relational induction through the run-length loop along the position embedding: notes/C08.md).  Proved part:
+   C08_transparent_rank (option R). *)
+Definition C08_transparent_rank_generic_full_statement : Prop :=
+  forall (A : Type) (NA : Num A) (T : Type) (D : IsNone T A) (DX : SortCmp.IsNoneX T A),
+    ndiv (nofnat (A := A) 1) (nofnat 1) = none ->
+    forall (pct rev : bool) (nl : T) (p : list bool) (xs : list T), is_none nl = true ->
+      Tevec.Model.Rank.vrank pct rev (insert_pat nl p xs) = insert_pat (Some nnan) p (Tevec.Model.Rank.vrank pct rev xs).
 
 (* two series with pairwise deletion: inserting pairs that are not pairwise complete *)
 Theorem C08_transparent_two_series :
@@ -518,6 +565,11 @@ Example C08_ex_rank_pattern :
   = [Some None; Some (Some 1%R); Some None; Some (Some 2%R)].
 Proof. reflexivity. Qed.
 
+Example C08_ex_tnone_null :
+  SortCmp.tnone (IsNoneX := SortCmp.IsNoneX_option (H := NumZ)) = Ok None /\
+  is_none (IsNone := IsNone_option (H := NumZ)) None = true.
+Proof. split; reflexivity. Qed.
+
 Print Assumptions C08_encoding_aggregations.
 Print Assumptions C08_encoding_order_statistics.
 Print Assumptions C08_encoding_rolling_cmp.
@@ -538,3 +590,5 @@ Print Assumptions C08_transparent_quantile_index_law.
 Print Assumptions C08_quantile_index_law_real.
 Print Assumptions C08_transparent_rank.
 Print Assumptions C08_transparent_rank_insert.
+Print Assumptions C08_transparent_quantile_across_encodings.
+Print Assumptions C08_transparent_partition.
